@@ -535,7 +535,7 @@ def run(ctx):
         ctx.note('%s max_size=%d on_miss=%s: states=%d transitions=%d depth=%d fixpoint=%s'
                  % (cls, ms, om, res.states, res.transitions, res.depth, res.fixpoint))
     cov = histories.merge_coverage(ctx, parts, rule=(
-        'BFS to fixpoint over all histories of the op menu (keys = max_size+1, values {0,1}); a state is the '
+        'BFS to fixpoint over all histories of the op menu (keys = max_size+1, values as listed per search); a state is the '
         'canonical form of the real object (ring walk, dict items in dict order, lookup keys, on_miss flag)'))
     cov['exhaustive'] = all(r.fixpoint for _, r in parts)
     ctx.assumptions += ['keys are plain strings with well-behaved __eq__/__hash__',
